@@ -15,6 +15,7 @@ use chia_consensus::flags::{ConsensusFlags, MEMPOOL_MODE};
 use chia_consensus::make_aggsig_final_message::make_aggsig_final_message;
 use chia_consensus::owned_conditions::OwnedSpendConditions;
 use chia_consensus::run_block_generator::{run_block_generator, run_block_generator2};
+use chia_consensus::spendbundle_conditions::{get_conditions_from_spendbundle, run_spendbundle};
 use chia_consensus::spendbundle_validation::{get_flags_for_height_and_constants, validate_clvm_and_signature};
 use chia_protocol::{Bytes32, Coin, CoinSpend, Program, SpendBundle};
 use clvmr::allocator::{Allocator, NodePtr};
@@ -109,9 +110,19 @@ pub enum Party {
     Evict { bundle: u8 },
     /// a node pre-validating the block with the signature check deferred
     /// (DONT_VALIDATE_SIGNATURE) but handed the shared cache all the same: parse_spends, or the
-    /// legacy run_block_generator. Its verdict is not judged; whatever it does to the cache must
-    /// not change anybody else's verdict.
-    DeferredSignature { bundle: u8, legacy: bool },
+    /// legacy run_block_generator (via 0), run_block_generator2 (via 1), run_spendbundle (via 2)
+    /// or get_conditions_from_spendbundle (via 3, mempool mode, no cache). Whatever it does to
+    /// the cache must not change anybody else's verdict; its own verdict is judged only as far
+    /// as the property speaks about it: the rejections that do not depend on the signature
+    /// (AGG_SIG_UNSAFE message ending in a domain constant, infinity / malformed key, the same
+    /// coin twice) must happen here too, and a bundle without them is accepted whatever its
+    /// signature is.
+    DeferredSignature {
+        bundle: u8,
+        legacy: bool,
+        #[serde(default)]
+        via: u8,
+    },
 }
 
 #[derive(Serialize, Deserialize, Clone, Debug)]
@@ -490,6 +501,8 @@ struct Truth {
     /// (NO_UNKNOWN_CONDS, STRICT_ARGS_COUNT) rejects the bundle
     unknown_cond: bool,
     why: &'static str,
+    /// the rejection does not depend on the signature (holds with signature checking deferred too)
+    structural: bool,
     /// (key bytes, reference message) of every condition with a valid key, in order
     pairs: Vec<(Vec<u8>, Vec<u8>)>,
 }
@@ -518,23 +531,23 @@ fn truth(dl: &Delivered, d: &[[u8; 32]; 7]) -> Truth {
     let mut ids = std::collections::BTreeSet::new();
     for s in &dl.spends {
         if !ids.insert(sha(&[&s.parent, &spend_ph(s), &int_atom(s.amount)])) {
-            return Truth { accept: false, unknown_cond, why: "same_coin_spent_twice", pairs };
+            return Truth { accept: false, unknown_cond, why: "same_coin_spent_twice", structural: true, pairs };
         }
     }
     if bad_key {
-        return Truth { accept: false, unknown_cond, why: "infinity_or_malformed_key", pairs };
+        return Truth { accept: false, unknown_cond, why: "infinity_or_malformed_key", structural: true, pairs };
     }
     if unsafe_suffix {
-        return Truth { accept: false, unknown_cond, why: "unsafe_message_ends_in_domain_constant", pairs };
+        return Truth { accept: false, unknown_cond, why: "unsafe_message_ends_in_domain_constant", structural: true, pairs };
     }
     let mut a = pairs.clone();
     let mut b = dl.signed.clone();
     a.sort();
     b.sort();
     if a == b {
-        Truth { accept: true, unknown_cond, why: "signed_exactly_the_prescribed_pairs", pairs }
+        Truth { accept: true, unknown_cond, why: "signed_exactly_the_prescribed_pairs", structural: false, pairs }
     } else {
-        Truth { accept: false, unknown_cond, why: "signed_pairs_differ_from_prescribed_pairs", pairs }
+        Truth { accept: false, unknown_cond, why: "signed_pairs_differ_from_prescribed_pairs", structural: false, pairs }
     }
 }
 
@@ -705,6 +718,8 @@ enum PartyResult {
     Verdict(Result<(), String>),
     /// verdict plus the cache keys returned by pre-validation and whether they matched the reference
     Pre { verdict: Result<(), String>, key_problem: Option<String>, fed: usize },
+    /// verdict of a pass with the signature check deferred; mempool: it ran in mempool mode
+    Deferred { verdict: Result<(), String>, mempool: bool },
     Unit,
 }
 
@@ -767,11 +782,26 @@ fn run_party(
                 }
             }
         }
-        Party::DeferredSignature { bundle, legacy } => {
+        Party::DeferredSignature { bundle, legacy, via } => {
             let b = &built[*bundle as usize % built.len()];
             let f = flags | ConsensusFlags::DONT_VALIDATE_SIGNATURE;
-            let _ = if *legacy { path_generator_legacy(b, Some(cache), k, f) } else { path_parse_spends(b, Some(cache), k, f) };
-            PartyResult::Unit
+            match via % 4 {
+                1 => PartyResult::Deferred { verdict: path_generator(b, Some(cache), k, f), mempool: false },
+                2 => {
+                    let mut a = Allocator::new();
+                    let verdict = run_spendbundle(&mut a, &b.bundle, MAX_COST, f, k).map(|_| ()).map_err(|e| format!("{:?}", e.error_code()));
+                    PartyResult::Deferred { verdict, mempool: false }
+                }
+                3 => {
+                    let mut a = Allocator::new();
+                    let verdict = get_conditions_from_spendbundle(&mut a, &b.bundle, MAX_COST, if *bundle % 2 == 0 { 0 } else { 10_000_000 }, k).map(|_| ()).map_err(|e| format!("{:?}", e.error_code()));
+                    PartyResult::Deferred { verdict, mempool: true }
+                }
+                _ => {
+                    let verdict = if *legacy { path_generator_legacy(b, Some(cache), k, f) } else { path_parse_spends(b, Some(cache), k, f) };
+                    PartyResult::Deferred { verdict, mempool: false }
+                }
+            }
         }
         Party::Evict { bundle } => {
             let i = *bundle as usize % built.len();
@@ -848,6 +878,18 @@ fn judge(party: &Party, r: &PartyResult, truths: &[Truth], case: &Case, phase: &
                 }
             }
             verdict
+        }
+        PartyResult::Deferred { verdict, mempool } => {
+            let want = !t.structural && !(*mempool && t.unknown_cond);
+            if verdict.is_ok() != want {
+                let path = party_name(party);
+                let why = if t.structural { t.why } else if !want { "unknown_condition_or_extra_arguments_in_mempool_mode" } else { "no_signature_independent_reason_to_reject" };
+                return Some((
+                    format!("verdict:{path}:{phase}:expected_{}_got_{}:{}", if want { "accept" } else { "reject" }, if verdict.is_ok() { "accept" } else { "reject" }, why),
+                    format!("bundle {i} (tampering: {tamper}): {path} (signature check deferred) returned {verdict:?}; ground truth: {} ({})", if want { "accept" } else { "reject" }, why),
+                ));
+            }
+            return None;
         }
         PartyResult::Unit => return None,
     };
@@ -1270,7 +1312,7 @@ fn gen_bundle(rng: &mut Rng, parent_counter: &mut u64, tamper_pct: u64, d: &[[u8
 fn gen_party(rng: &mut Rng, nbundles: usize) -> Party {
     let bundle = rng.usize_below(nbundles) as u8;
     match rng.below(11) {
-        10 => Party::DeferredSignature { bundle, legacy: rng.chance(1, 2) },
+        10 => Party::DeferredSignature { bundle, legacy: rng.chance(1, 2), via: rng.below(4) as u8 },
         0..=2 => Party::ParseSpends { bundle },
         3 | 4 => Party::RunGenerator { bundle },
         5 => Party::RunGeneratorLegacy { bundle },
